@@ -2039,6 +2039,11 @@ impl Server {
         }
         
         if let Some(rdb_engine) = &self.rdb_engine {
+            // A background save that is still running would finish after this one and put its
+            // older snapshot in place of the newer dump
+            if rdb_engine.is_bgsave_in_progress() {
+                return Ok(RespFrame::error("ERR Background save already in progress"));
+            }
             match rdb_engine.save(&self.storage) {
                 Ok(_) => {
                     if let Some(monitor) = &self.storage_monitor {
